@@ -4,6 +4,7 @@ import random
 
 import p_delta
 from p_delta import delta_cfg, DELTA_ACTIONS
+from vlib import clip as vclip
 from vlib import unreproduced as vlib_unreproduced, Broken, Verdict, log, read_ndjson, write_ndjson, require_coverage
 
 
@@ -27,7 +28,7 @@ def run_rtok(w, lines, label):
             if o.get("harness_error"):
                 raise Broken("rtok harness error: %s" % o.get("harness_error"))
             o = {"id": scn.get("id", -1), "basis": scn.get("basis", []), "blk": scn.get("blk", 1), "script": scn.get("script", []), "recv": scn.get("recv", ""),
-                 "result": "crashed" if o.get("crashed") else "hung", "err": (o.get("stderr") or "")[-800:], "out": [-3], "temps": 0}
+                 "result": "crashed" if o.get("crashed") else "hung", "err": vclip(o.get("stderr"), 800), "out": [-3], "temps": 0}
         obs.append(o)
     if len(obs) != len(lines):
         raise Broken("rtok: %d observations for %d scenarios" % (len(obs), len(lines)))
